@@ -300,11 +300,15 @@ def monitorC36 : Case → String → String
           else if mergeable c.merge b r rest then
             let first := (stepReq b r).2
             if first.isSuccess then
+              let s1 := (stepReq b r).1
+              let ns := noShrink s1 rest
+              let an := ackAnchored s1 r.ents.isEmpty rest
               let v := v.check true (after.ents == sq.1.log.ents) "merge-log-differs"
               let v := v.check true (o.term == sq.1.term) "merge-term-differs"
-              let v := v.check (noTail b r) (o.commit == sq.1.commit) "merge-commit-differs"
-              let v := v.check (noTail b r) (ackEquiv o.acks sq.2) "merge-ack-differs"
-              v.check (!(noTail b r)) (o.commit == sq.1.commit) "merge-commit-differs-stale-tail"
+              let v := v.check ns (o.commit == sq.1.commit) "merge-commit-differs"
+              let v := v.check an (ackEquiv o.acks sq.2) "merge-ack-differs"
+              -- outside the hypotheses of `merge_equiv` (a tail behind the chain): `MergeEquivStatement`
+              v.check (!(ns && an)) (o.commit == sq.1.commit && ackEquiv o.acks sq.2) "merge-differs-stale-tail"
             else
               -- first request rejected: every sender gets that rejection, state as after that one request
               let s1 := stepReq b r
@@ -335,11 +339,12 @@ def monitorC07 : Case → String → String
           match c.ldr with
           | none => v
           | some ldr =>
-            let hyp := acc && b.log.wf && segOK b.log && cutFrom ldr r && termsMono r.ents &&
-                       agreeRange b.log.ents ldr b.log.pIdx (min r.prev b.log.lastIdx) &&
-                       !(r.prev == 0 && r.prevTerm == 0 && r.ents.isEmpty) &&
-                       logMatching b.log.ents ldr
+            -- CutOK of Props/C07 evaluated on the implementation's observed state
+            let hyp := acc && b.log.wf && segOK b.log && r.contig && termsMono r.ents &&
+                       r.ents.all (fun e => findE ldr e.index == some e) && logMatching b.log.ents ldr &&
+                       agreeRange b.log.ents ldr b.log.pIdx r.prev
             let v := v.check hyp (agreeRange after.ents ldr b.log.pIdx (r.prev + r.ents.length)) "accepted-prefix-mismatch"
+            -- TailOK
             let tailOK := decide (after.lastIdx ≤ r.prev + r.ents.length) || decide (r.commit ≤ r.prev + r.ents.length) ||
                           agreeRange after.ents ldr b.log.pIdx after.lastIdx
             v.check (hyp && tailOK && decide (r.commit > b.commit)) (agreeRange after.ents ldr b.log.pIdx o.commit) "commit-covers-mismatch"
